@@ -826,8 +826,79 @@ def joint_guard(a: "Outcome", b: "Outcome", sa: SetAlg):
             if c[0] == "forall-not":
                 ax.extend(_instantiate(c, wit, sa))
     g = f_and(a.guard, b.guard, *[norm_formula(x) for x in ax])
+    if wit:
+        wax = _witness_nonempty_axioms(g, wit, sa)
+        if wax:
+            g = f_and(g, *wax)
+    lax = _length_axioms(g)
+    if lax:
+        g = f_and(g, *lax)
     cax = class_axioms(g)
     return f_and(g, *cax) if cax else g
+
+
+def _length_axioms(g) -> list:
+    """len(X) == len(Y): both empty -> equal; exactly one empty -> different (X, Y collections the guard also tests for emptiness)."""
+    from .setalg import atoms_of, f_or
+
+    ats = list(atoms_of(g))
+    out = []
+    for at in ats:
+        if isinstance(at, tuple) and len(at) == 3 and at[0] in ("eq", "ne") and is_term(at[1]) and is_term(at[2]) and at[1][0] == "len" and at[2][0] == "len":
+            X, Y = at[1][1], at[2][1]
+
+            def ne_atom(S):
+                for b_ in ats:
+                    if isinstance(b_, tuple) and len(b_) == 2 and b_[0] in ("truth", "nonempty") and b_[1] == S:
+                        return ("atom", b_)
+                return ("atom", ("truth", S))
+            nx_, ny_ = ne_atom(X), ne_atom(Y)
+            same = ("atom", at) if at[0] == "eq" else f_not(("atom", at))
+            out.append(f_or(nx_, ny_, same))                       # both empty: same length
+            out.append(f_or(f_not(nx_), ny_, f_not(same)))         # only X has elements: different lengths
+            out.append(f_or(nx_, f_not(ny_), f_not(same)))         # only Y has elements
+    return out
+
+
+def _witness_nonempty_axioms(g, wit: list, sa: SetAlg) -> list:
+    """A witness w of a search loop is an element: whenever w satisfies the defining condition of a set S = {x | phi(x)} that the guard talks
+    about through `nonempty(S)`, S is not empty:  phi(w) -> nonempty(S).  (S is given by its canonical truth table over membership atoms.)"""
+    from .setalg import atoms_of, f_or
+
+    ws: list = []
+    for pat, _src in wit:
+        for v in _pat_vars(pat):
+            if v not in ws:
+                ws.append(v)
+    out = []
+    seen = set()
+    for at in atoms_of(g):
+        if not (isinstance(at, tuple) and len(at) == 2 and at[0] in ("nonempty", "truth") and isinstance(at[1], tuple) and len(at[1]) == 3 and at[1][0] == "SET"):
+            continue
+        _h, ats, tb = at[1]
+        bound = sorted({v for a_ in ats for v in subterms_of(a_) if v[0] == "var" and isinstance(v[1], str) and v[1].startswith("%") and v[1][1:].isdigit()}, key=repr)
+        if len(bound) != 1 or len(tb) != 1 << len(ats):
+            continue
+        x = bound[0]
+        for w in ws[:6]:
+            key = (at, w)
+            if key in seen:
+                continue
+            seen.add(key)
+            try:
+                fs = [norm_formula(sa.cond(subst(a_, {x: w}))) for a_ in ats]
+            except Exception:  # noqa: BLE001
+                continue
+            import itertools as _it
+            rows = []
+            for k, bits in enumerate(_it.product([False, True], repeat=len(fs))):
+                if tb[k]:
+                    rows.append(f_and(*[(f if b_ else f_not(f)) for f, b_ in zip(fs, bits)]))
+            if not rows:
+                continue
+            phi = f_or(*rows)
+            out.append(norm_formula(f_or(f_not(phi), ("atom", at))))
+    return out
 
 
 def evaluate(model: Model, qname: str, mk_ev: Callable[[], Evaluator], types: dict[str, Any], self_type: Any = None, func: Func | None = None,
@@ -1003,14 +1074,63 @@ def load_reference(model: Model, name: str, filename: str) -> None:
             raise AnalysisError(f"anchor vanished: the reference definitions use {target}, which the repository no longer defines")
 
 
+class _RowTimeout(Exception):
+    pass
+
+
+class time_limit:
+    """Wall-clock bound for one comparison (a source shape that makes the terms or the case splits explode ends as "no verdict" for that
+    routine, the other routines are still analysed).  Nested inside the whole check's own alarm, which is re-armed with what is left of it."""
+
+    def __init__(self, seconds: int):
+        self.seconds = seconds
+
+    def __enter__(self):
+        import signal
+        import time
+        self._signal, self._t0 = signal, time.time()
+        try:
+            self._old = signal.getsignal(signal.SIGALRM)
+            self._left = signal.alarm(0)
+        except ValueError:  # not in the main thread
+            self._old = None
+            return self
+
+        def handler(_s, _f):
+            raise _RowTimeout()
+
+        signal.signal(signal.SIGALRM, handler)
+        signal.alarm(self.seconds if not self._left else max(1, min(self.seconds, self._left - 5)))
+        return self
+
+    def __exit__(self, *exc):
+        import time
+        if self._old is None:
+            return False
+        self._signal.alarm(0)
+        self._signal.signal(self._signal.SIGALRM, self._old)
+        if self._left:
+            self._signal.alarm(max(1, int(self._left - (time.time() - self._t0))))
+        return False
+
+
 def run_table(model: Model, rep, table, ref_module: str, mk, sa: SetAlg, infeasible=None, construct=None, loc=None, ignore_raises_for=(), post=None):
     """table rows: (rule, implementation qname, reference function, parameter types, primitives, role, words[, extra keyword arguments])."""
     for row in table:
         rule, impl, ref, types, prims, role, words = row[:7]
         extra = row[7] if len(row) > 7 else {}
         f = model.func(impl)
-        fobj, verdict, detail, sample = compare_with_reference(
-            model, impl, f"{ref_module}.{ref}", types, mk(model, prims), sa, infeasible=infeasible, ignore_raises=impl in ignore_raises_for, post=post, **extra)
+        try:
+            with time_limit(int(__import__("os").environ.get("YV_ROW_BUDGET", "45"))):
+                fobj, verdict, detail, sample = compare_with_reference(
+                    model, impl, f"{ref_module}.{ref}", types, mk(model, prims), sa, infeasible=infeasible, ignore_raises=impl in ignore_raises_for, post=post, **extra)
+        except Exception as ex:  # noqa: BLE001
+            from .symeval import Budget
+            if isinstance(ex, _RowTimeout):
+                ex = "time budget for one routine exceeded (combinatorial blow-up of paths or terms)"
+            elif not isinstance(ex, (Budget, RecursionError)):
+                raise
+            fobj, verdict, detail, sample = f, "UNKNOWN", f"the analysis of this routine did not finish: {ex}", {}
         sample["definition"] = words
         cons = construct(f, role)
         if verdict == "PROVEN":
